@@ -318,7 +318,10 @@ ParseOutcome(B, c) ==
      ELSE Outcome(fin)
 
 (***************************************************************************)
-(* Relational encoder (used by MC_CSeg / Gen_CSeg only): ANY table order,   *)
+(* Relational encoder (used by MC_CSeg / Gen_CSeg only).                     *)
+(* IsEncodingOf(buf, arr) holds exactly for the buffers reachable by         *)
+(*   EncInit ; (EncStartChannel ; EncBlock^G)^C                              *)
+(* under every choice of the parameters of EncBlock, i.e. ANY table order,   *)
 (* optional sharing of identical tables inside a channel, either placement  *)
 (* of table and values, any legal width >= the minimal one, any value for   *)
 (* padding positions.  An encoding in progress is                           *)
